@@ -100,7 +100,9 @@ impl RelayTransport {
             "non matching bufs & recv_infos"
         );
         let mut num_msgs = 0;
-        for i in 0..bufs.len() {
+        // Not a `for` over the buffers: a datagram that is dropped does not use up its buffer.
+        while num_msgs < bufs.len() {
+            let i = num_msgs;
             let buf_out = &mut bufs[i];
             let meta_out = &mut metas[i];
             let recv_info = &mut recv_infos[i];
@@ -119,10 +121,12 @@ impl RelayTransport {
             };
 
             // This *tries* to make the datagrams fit into our buffer by re-batching them.
+            // Always take at least one segment: a segment larger than the buffer is taken on
+            // its own and dropped below, instead of staying queued forever.
             let num_segments = dm
                 .datagrams
                 .segment_size
-                .map_or(1, |ss| buf_out.len() / u16::from(ss) as usize);
+                .map_or(1, |ss| (buf_out.len() / u16::from(ss) as usize).max(1));
             let datagrams = dm.datagrams.take_segments(num_segments);
             let empty_after = dm.datagrams.contents.is_empty();
             let dm = RelayRecvDatagram {
@@ -144,7 +148,9 @@ impl RelayTransport {
                     segment_size = ?dm.datagrams.segment_size,
                     "dropping received datagram: noq buffer too small"
                 );
-                break;
+                // Keep going with whatever is queued next: stopping here could return
+                // `Poll::Pending` without a waker registered on the receive queue.
+                continue;
                 // In theory we could put some logic in here to fragment the datagram in case
                 // we still have enough room in our `buf_out` left to fit a couple of
                 // `dm.datagrams.segment_size`es, but we *should* have cut those datagrams
